@@ -962,13 +962,19 @@ func (s *Store[K, V]) processSecondary() {
 			item.shard.mu.RUnlock(tk)
 			if err != nil {
 				s.secondaryCache.HandleAsyncError(err)
-				continue
 			}
+			// The entry left the policy when it was evicted, so it must leave the map
+			// too, even if the secondary cache refused it: otherwise it would stay in
+			// memory forever, outside the policy's accounting.
 			if item.reason == EVICTED {
 				item.shard.mu.Lock()
 				deleted := item.shard.delete(item.entry)
 				item.shard.mu.Unlock()
 				if deleted {
+					if err != nil && s.removalListener != nil {
+						// lost from both tiers: report it like a plain eviction
+						s.removalListener(item.entry.key, item.entry.value, EVICTED)
+					}
 					s.policyMu.Lock()
 					s.postDelete(item.entry)
 					s.policyMu.Unlock()
